@@ -56,6 +56,7 @@ func checkC14(p *Program, r *Report) {
 	c14DecodeGuard(p, r)
 	c14Containers(p, r)
 	c14NullElement(p, r)
+	c14NillableWrap(p, r)
 }
 
 // c14Setup: helpers are summarised as call atoms, except error constructors (functions whose only
@@ -827,6 +828,72 @@ func v2ElementGuard(p *Program, r *Report, rule string) {
 					r.Fail(rule, key, c.Pos(), "in the protocol-v2 branch the encoded element %s reaches WriteShortBytes without an `== nil` test on that very value: a NULL element is written as an empty one (or an empty element is refused)", describeVal(arg))
 				}
 			}
+		}
+	}
+}
+
+// c14NillableWrap: ensureNillable makes every preferred Go type able to hold NULL: for each
+// reflect.Kind that is a value kind (bool, numbers, string, struct, array) the type is wrapped in a
+// pointer; nillable kinds (interface, pointer, slice, map) are left alone. Tabulated over all kinds
+// by interpreting the function with Kind() fixed to each constant (comparisons only).
+func c14NillableWrap(p *Program, r *Report) {
+	fnObj, ok := p.Pkg("datacodec").Types.Scope().Lookup("ensureNillable").(*types.Func)
+	if !ok {
+		r.Fail("nillable-wrap", "ensureNillable", token.NoPos, "anchor: datacodec.ensureNillable not found")
+		return
+	}
+	var reflectPkg *types.Package
+	for _, imp := range p.Pkg("datacodec").Types.Imports() {
+		if imp.Path() == "reflect" {
+			reflectPkg = imp
+		}
+	}
+	if reflectPkg == nil {
+		fatalf("anchor: package reflect not imported by datacodec")
+	}
+	kindT := reflectPkg.Scope().Lookup("Kind").Type()
+	mustWrap := map[string]bool{"Bool": true, "Int": true, "Int8": true, "Int16": true, "Int32": true, "Int64": true, "Uint": true, "Uint8": true, "Uint16": true, "Uint32": true, "Uint64": true, "Uintptr": true, "Float32": true, "Float64": true, "Complex64": true, "Complex128": true, "String": true, "Struct": true, "Array": true}
+	mustNot := map[string]bool{"Interface": true, "Ptr": true, "Pointer": true, "Slice": true, "Map": true}
+	for _, name := range reflectPkg.Scope().Names() {
+		kc, ok := reflectPkg.Scope().Lookup(name).(*types.Const)
+		if !ok || !types.Identical(kc.Type(), kindT) || (!mustWrap[name] && !mustNot[name]) {
+			continue
+		}
+		h := &effHooks{}
+		h.CallHook = func(in *Interp, c *CallCtx, k func(*State, []Val)) bool {
+			if c.Callee != nil && c.Callee.Name() == "Kind" && c.Callee.Pkg() != nil && c.Callee.Pkg().Path() == "reflect" {
+				k(c.St, []Val{{K: KConst, C: kc.Val(), T: kindT}})
+				return true
+			}
+			return false
+		}
+		in := newInterp(p, h)
+		_, args := paramVals(fnObj)
+		outs := in.RunFunc(fnObj, nil, args, nil)
+		wraps, plain := false, false
+		for _, o := range outs {
+			w := false
+			for _, s := range o.St.trace {
+				if s.Kind == "ext" && (s.Name == "reflect.PtrTo" || s.Name == "reflect.PointerTo") {
+					w = true
+				}
+			}
+			if w {
+				wraps = true
+			} else {
+				plain = true
+			}
+		}
+		key := "ensureNillable(" + name + ")"
+		switch {
+		case len(in.Undecided) > 0 || wraps == plain:
+			r.Fail("nillable-wrap", key, fnObj.Pos(), "could not decide whether a type of kind %s is wrapped (paths: wrapped=%v unwrapped=%v %s)", name, wraps, plain, strings.Join(in.Undecided, "; "))
+		case mustWrap[name] && !wraps:
+			r.Fail("nillable-wrap", key, fnObj.Pos(), "a preferred Go type of kind %s is not wrapped in a pointer: collection elements of that type decoded into an untyped destination cannot hold NULL (a NULL element becomes the zero value and is re-encoded as a value)", name)
+		case mustNot[name] && wraps:
+			r.Fail("nillable-wrap", key, fnObj.Pos(), "a nillable type of kind %s is wrapped in a pointer: the preferred Go type documented for collections changes", name)
+		default:
+			r.OKf("nillable-wrap", key, fnObj.Pos(), "kind %s: wrapped=%v", name, wraps)
 		}
 	}
 }
